@@ -224,3 +224,55 @@ def handleFit (focus : String) (c : Case) : String := Id.run do
     return acc.render s!"{tag0}/{tname}"
 
 end Varpro.Drv
+
+namespace Varpro.Drv
+open Varpro
+
+/-- C09: build + caller-driven history are replayed on the model with the same fault window
+(correspondence); the fit phase is judged by the property's statement (monitor) -/
+def handleFault (focus : String) (c : Case) : String := Id.run do
+  let (acc0, tag0) := stateCore "C09" c
+  let _ := focus
+  let mut acc := acc0
+  let hugeN := 1000000000
+  let parseIdx (v : String) : Nat := match v.toNat? with | some k => min k hugeN | none => hugeN
+  let failFrom := parseIdx (attrStr c.header "failfrom" "x")
+  let failTo := parseIdx (attrStr c.header "failto" "x")
+  let mode := attrStr c.header "mode" "none"
+  let withStats := attrStr c.header "stats" == "1"
+  -- panics anywhere are violations
+  for l in c.body do
+    if l.contains "panic" then
+      acc := { acc with mon := acc.mon.push s!"panic:{joinToks l 0}" }
+  let fitStart := match c.firstWith "fitstart" with | some l => attrNat l "calls" | none => 0
+  let fitEnd := match c.firstWith "fitend" with | some l => attrNat l "calls" | none => hugeN
+  match c.firstWith "result" with
+  | none =>
+    if (c.firstWith "built").isNone then acc := { acc with corr := acc.corr.push "no-result-line" }
+  | some rl =>
+    let kind := rl.getD 1 ""
+    if kind == "hang" || kind == "panic" then
+      acc := { acc with mon := acc.mon.push s!"fit-{kind}" }
+    else
+      let termS := attrStr rl "term"
+      let term := parseTermination termS
+      let hasStats := attrStr rl "hasstats" == "1"
+      -- was a failing call index reached while `fit` ran?
+      let hit := max failFrom fitStart < min failTo fitEnd && failFrom < hugeN
+      acc := { acc with compared := acc.compared + 1, nontrivial := acc.nontrivial || hit }
+      if hit then
+        if kind == "ok" then
+          acc := { acc with mon := acc.mon.push s!"fit-returned-Ok-although-model-call-{max failFrom fitStart}-failed-during-the-fit({termS})" }
+        if hasStats then
+          acc := { acc with mon := acc.mon.push "statistics-returned-although-a-model-call-failed" }
+        if !withStats then
+          match term with
+          | .user _ => pure ()
+          | _ => acc := { acc with mon := acc.mon.push s!"failure-during-fit-but-termination-{termS}" }
+      else
+        -- no failure reached during the fit: it must behave like the fault-free fit (same decision rule)
+        if (kind == "ok") != term.wasSuccessful && !withStats then
+          acc := { acc with corr := acc.corr.push s!"fit-returned-{kind}-for-{termS}" }
+  return acc.render s!"{tag0}/{mode}/{if withStats then "stats" else "fit"}"
+
+end Varpro.Drv
